@@ -113,7 +113,7 @@ QueryOps(g) ==
   \cup { [Op("get_bond_attr") EXCEPT !.a = p[1], !.b = p[2], !.k = "w"] : p \in Pairs }
   \cup { Op(n) : n \in {"n_atoms", "n_components", "eq_self", "eq_copy", "hash", "str", "to_json", "to_rdmol"} }
   \cup (IF HasRoles(g.kind) THEN
-          { [Op("role_bonds") EXCEPT !.ch = c] : c \in {"formed", "broken", "fleeting"} }
+          { [Op("role_bonds") EXCEPT !.ch = c, !.flag = f] : c \in {"formed", "broken", "fleeting"}, f \in BOOLEAN }
           \cup { [Op("active_atoms") EXCEPT !.flag = f] : f \in BOOLEAN }
         ELSE {})
   \cup (IF HasStereo(g.kind) THEN
